@@ -61,7 +61,7 @@ Lemma run_fexec ls : forall st st' o, run st ls = (st', o) -> length o = length 
 Proof.
   induction ls as [|l t IH]; intros st st' o H Hl; simpl in *; [reflexivity|].
   unfold step in H. destruct (front (sf st) (l_from l) (l_frame l)) as [[f' acts]|]; [|inversion H; subst; discriminate].
-  destruct (bsteps (sb st) (l_order l) acts) as [b' e]. destruct (run (mkS f' b') t) as [st2 r] eqn:R.
+  destruct (bsteps (f_tab f') (sb st) (l_order l) acts) as [b' e]. destruct (run (mkS f' b') t) as [st2 r] eqn:R.
   inversion H; subst. simpl in Hl. apply (IH (mkS f' b') _ _ R). lia.
 Qed.
 
@@ -81,6 +81,8 @@ Proof. destruct y; reflexivity. Qed.
 Lemma f_cont_set_other f y z c : z <> y -> f_cont (set_cont f y c) z = f_cont f z.
 Proof. destruct y, z; simpl; intros; congruence. Qed.
 Lemma f_cont_set_maxf f y z v : f_cont (set_maxf f y v) z = f_cont f z.
+Proof. destruct y, z; reflexivity. Qed.
+Lemma f_cont_set_tab f y z v : f_cont (set_tab f y v) z = f_cont f z.
 Proof. destruct y, z; reflexivity. Qed.
 
 Lemma enq_of_map_enq z qs : enq_of z (map (AEnq z) qs) = qs.
@@ -112,7 +114,7 @@ Proof.
       rewrite ?f_cont_set_other by congruence; rewrite ?E; auto.
   - inversion H; subst; simpl. rewrite E. auto.
   - inversion H; subst; simpl. rewrite E. auto.
-  - inversion H; subst. rewrite f_cont_set_maxf. split; [reflexivity|].
+  - inversion H; subst. rewrite f_cont_set_tab, f_cont_set_maxf. split; [reflexivity|].
     rewrite enq_of_app, enq_of_settings. reflexivity.
   - inversion H; subst; simpl. auto.
   - destruct eh; inversion H; subst; simpl; rewrite ?E; auto.
@@ -167,7 +169,7 @@ Proof.
   - inversion F; subst; simpl. rewrite side_eqb_refl. simpl. f_equal; [|apply IH; assumption].
     unfold q_on. simpl. destruct (N.eqb k s); reflexivity.
   - inversion F; subst. rewrite enq_of_app, enq_of_settings. simpl.
-    apply IH; [|assumption]. unfold pd_ok in *. rewrite f_cont_set_maxf. assumption.
+    apply IH; [|assumption]. unfold pd_ok in *. rewrite f_cont_set_tab, f_cont_set_maxf. assumption.
   - inversion F; subst; simpl. apply IH; assumption.
   - destruct eh; inversion F; subst; simpl.
     + rewrite side_eqb_refl. simpl. f_equal; [|apply IH; assumption].
